@@ -1,7 +1,7 @@
 import SqlObjVerif.Model.CodecXChain
 import SqlObjVerif.Lemmas.CodecX
 import SqlObjVerif.Lemmas.CodecXInt
-import SqlObjVerif.Lemmas.CodecXFk
+import SqlObjVerif.Lemmas.CodecXFkAll
 import SqlObjVerif.Lemmas.CodecXSub
 import SqlObjVerif.Lemmas.CodecXBin
 import SqlObjVerif.Lemmas.CodecXMore
